@@ -6,6 +6,7 @@ title), interleaved with a second Executor on the same class under different ove
 FRESH Executor with the same overrides makes when it asks for that single coordinate once.  icontract contracts on the
 three query methods check that the observable executor state (override set, sizes) is the same before and after each call;
 the whole-sheet grid must have one entry per coordinate of (used range U overrides), in row-major order."""
+import os
 import re
 
 from .. import pipeline, wbspec
@@ -483,18 +484,89 @@ def run_deepeval(ctx):
     r.sample({'deep_evaluation': 'Bn = B(n-1)+An over 200 / 560 rows through get_cell, get_cells, get_sheet, +100 and +300 caller frames'})
 
 
+def run_classfile(ctx):
+    """one class file under several names.  A service keeps the generated class under a fixed real path and publishes new versions
+    through another name of the same file (a symbolic link in a "current" directory, a second hard link, a relative spelling, a path with
+    ".." in it).  After write_translation through ANY of these names every name loads the same - new - class: the values queried do not
+    depend on the spelling of the path, and the names are still what they were (the link a link, the hard links one inode)."""
+    from excel2pycl import Parser
+    r, rng = ctx.r, ctx.rng
+    for trial in range(6):
+        d = os.path.join(ctx.workdir, f'cf{trial}')
+        os.makedirs(os.path.join(d, 'real'), exist_ok=True)
+        os.makedirs(os.path.join(d, 'current'), exist_ok=True)
+        real = os.path.join(d, 'real', 'model.py')
+        link = os.path.join(d, 'current', 'model.py')
+        hard = os.path.join(d, 'real', 'model_v.py')
+        dotted = os.path.join(d, 'current', '..', 'real', 'model.py')
+        books_ = []
+        for v in range(3):
+            base = rng.randrange(10, 99) * 100 * (v + 1)
+            cells = {'A1': base, 'A2': base + v + 1, 'B1': '=A1+A2', 'B2': '=SUM(A1:A2)*2', 'C1': f'="v{v}"&A1'}
+            spec = wbspec.spec(wbspec.sheet('Main', cells))
+            path = wbspec.write(spec, os.path.join(d, f'w{v}.xlsx'))
+            books_.append((path, {(1, 1): base, (2, 1): base + v + 1, (1, 2): 2 * base + v + 1, (2, 2): (2 * base + v + 1) * 2, (1, 3): f'v{v}{base}'}))
+        o = pipeline.guarded(lambda: Parser().set_excel_file_path(books_[0][0]).write_translation(real), 'translate')
+        if not o.ok:
+            r.count('classfile_first_write_failed')
+            continue
+        os.symlink(os.path.join('..', 'real', 'model.py'), link)
+        os.link(real, hard)
+        names = {'real': real, 'symlink': link, 'hardlink': hard, 'dotted': dotted, 'relative': os.path.join('real', 'model.py')}
+        through = ['symlink', 'hardlink', 'relative', 'dotted', 'real'][trial % 5]
+        for v in (1, 2):
+            wpath, want = books_[v]
+            cwd = os.getcwd()
+            try:
+                os.chdir(d)
+                w = pipeline.guarded(lambda: Parser().set_excel_file_path(wpath).write_translation(names[through]), 'translate')
+            finally:
+                os.chdir(cwd)
+            r.ev()
+            r.count('classfile_writes_through:' + through)
+            case = {'what': 'class file with several names', 'written_through': through, 'version': v, 'trial': trial}
+            if not w.ok:
+                report(r, ID, None, case, w.brief(), 'the class file written', monitor='classfile-names')
+                continue
+            if not os.path.islink(link):
+                report(r, ID, None, case, 'the symbolic link was replaced by something else', 'the link still a link', monitor='classfile-names')
+            if os.stat(real).st_ino != os.stat(hard).st_ino:
+                report(r, ID, None, case, 'the two hard links name two files now', 'one file with two names', monitor='classfile-names')
+            for nm, pth in names.items():
+                cwd = os.getcwd()
+                try:
+                    os.chdir(d)
+                    ex = pipeline.guarded(lambda: pipeline.Executor().set_executed_class(class_file=pth), 'load_file')
+                    got = {}
+                    if ex.ok:
+                        for (rr, cc) in want:
+                            q = pipeline.guarded(lambda: ex.value.get_cell(pipeline.ncell(0, rr, cc)).value, 'query')
+                            got[(rr, cc)] = q.value if q.ok else q.brief()
+                finally:
+                    os.chdir(cwd)
+                r.ev()
+                r.nt(('classfile', trial, v, through, nm))
+                if not ex.ok or got != want:
+                    report(r, ID, None, dict(case, loaded_through=nm), ex.brief() if not ex.ok else {wbspec.a1(rw, c): g for (rw, c), g in got.items()},
+                           {wbspec.a1(rw, c): g for (rw, c), g in want.items()}, monitor='classfile-names')
+    r.sample({'classfile': 'real path / symbolic link / hard link / relative / dotted spelling of one class file; three versions written through one name, loaded through all'})
+
+
 def plan(tier, seed):
     n = 160 if tier == 'quick' else 1920
     sh = [{'n': n // 16, 'k': k, 'calls': 60 if tier == 'quick' else 200} for k in range(16)]
     m = 72 if tier == 'quick' else 960
     sh += [{'n': m // 8, 'k': 100 + k, 'calls': 80 if tier == 'quick' else 250, 'semantic': True} for k in range(8)]
     sh.append({'deepeval': 1, 'n': 0, 'k': 0})
+    sh.append({'classfile': 1, 'n': 0, 'k': 0})
     return sh
 
 
 def run_shard(shard, ctx):
     r = ctx.r
     boundary.install(r)
+    if 'replay' in shard and shard['replay'].get('what') == 'class file with several names':
+        return run_classfile(ctx)
     if 'replay' in shard:
         # schedules are regenerated from the seed: replay = re-run the recorded book under a fresh random schedule
         boundary.reset()
@@ -504,6 +576,8 @@ def run_shard(shard, ctx):
         return
     if 'deepeval' in shard:
         return run_deepeval(ctx)
+    if 'classfile' in shard:
+        return run_classfile(ctx)
     for i in range(shard['n']):
         boundary.reset()
         kind_ = SEM_KINDS[(i + shard['k'] * 4) % len(SEM_KINDS)]
